@@ -11,6 +11,7 @@ package serverinterceptors
 
 import (
 	"context"
+	"errors"
 	"fmt"
 	"sort"
 	"strings"
@@ -48,6 +49,7 @@ type c02Call struct {
 	P    []c02Step `json:"p"`
 	End  string    `json:"end"`            // ok | err | panic
 	Code int       `json:"code,omitempty"` // grpc code of "err"
+	PV   int       `json:"pv,omitempty"`   // kind of the panic value of "panic", see c02Panic
 }
 
 type c02Case struct {
@@ -126,7 +128,11 @@ func c02Valid(c c02Case) bool {
 			}
 		}
 		switch q.End {
-		case "ok", "panic":
+		case "ok":
+		case "panic":
+			if q.PV < 0 || q.PV >= len(c02PanicKinds) {
+				return false
+			}
 		case "err":
 			if q.Code < 1 || q.Code > 16 {
 				return false
@@ -144,6 +150,43 @@ func c02Valid(c c02Case) bool {
 		}
 	}
 	return true
+}
+
+var c02PanicKinds = []string{"string", "errors.New", "nil-map-write", "nil-deref", "index-out-of-range",
+	"status-error-NotFound", "struct", "int", "wrapped-error", "status-error-Unavailable"}
+
+type c02PanicStruct struct {
+	A int
+	B string
+}
+
+// c02Panic panics with a value of the given kind. The statement promises
+// codes.Internal "on panic", whatever the value.
+func c02Panic(kind, call int) {
+	switch kind {
+	case 1:
+		panic(errors.New(fmt.Sprintf("c02 rpc handler panic (error), call %d", call)))
+	case 2:
+		var m map[string]int
+		m["x"] = call // runtime error: assignment to entry in nil map
+	case 3:
+		var p *c02PanicStruct
+		p.A = call // runtime error: nil pointer dereference
+	case 4:
+		xs := make([]int, call%3)
+		_ = xs[call%3+1] // runtime error: index out of range
+	case 5:
+		panic(status.Error(codes.NotFound, fmt.Sprintf("c02 panicked status, call %d", call)))
+	case 6:
+		panic(c02PanicStruct{A: call, B: "c02"})
+	case 7:
+		panic(call)
+	case 8:
+		panic(fmt.Errorf("c02 wrapped: %w", context.DeadlineExceeded))
+	case 9:
+		panic(status.Error(codes.Unavailable, fmt.Sprintf("c02 panicked status, call %d", call)))
+	}
+	panic(fmt.Sprintf("c02 rpc handler panic, call %d", call))
 }
 
 func c02Compose(ints []grpc.UnaryServerInterceptor, info *grpc.UnaryServerInfo, final grpc.UnaryHandler) grpc.UnaryHandler {
@@ -266,7 +309,7 @@ func c02Run(t *testing.T, c c02Case) (v kit.Verdict) {
 					}
 					switch q.End {
 					case "panic":
-						panic(fmt.Sprintf("c02 rpc handler panic, call %d", i))
+						c02Panic(q.PV, i)
 					case "err":
 						return nil, status.Error(codes.Code(q.Code), fmt.Sprintf("%s %d", c02OwnMsg, i))
 					}
@@ -361,6 +404,10 @@ func c02Judge(c c02Case, plans []c02Plan, arr []int64, resps []*string, obs []*c
 		}
 		if q.End == "panic" {
 			cls["panic"] = true
+			cls["panic-value:"+c02PanicKinds[q.PV]] = true
+			if c.T == 0 {
+				cls["panic-without-timeout-interceptor"] = true
+			}
 		}
 		if q.End == "err" {
 			cls["handler-error"] = true
@@ -434,7 +481,7 @@ func c02Rel(rt *rapid.T, d, elapsed int, label string) int {
 
 func c02Gen(rt *rapid.T) c02Case {
 	c := c02Case{NM: rapid.SampledFrom([]int{1, 1, 2}).Draw(rt, "nm"), Full: rapid.IntRange(0, 2).Draw(rt, "full") == 0}
-	if rapid.IntRange(0, 6).Draw(rt, "toff") != 0 {
+	if rapid.IntRange(0, 3).Draw(rt, "toff") != 0 {
 		c.T = rapid.SampledFrom([]int{1, 2, 5, 10, 20, 100, 1000, 20000}).Draw(rt, "t")
 	}
 	d := c.T
@@ -479,6 +526,9 @@ func c02Gen(rt *rapid.T) c02Case {
 			ends = []string{"ok", "err"}
 		}
 		q.End = rapid.SampledFrom(ends).Draw(rt, "end")
+		if q.End == "panic" {
+			q.PV = rapid.IntRange(0, len(c02PanicKinds)-1).Draw(rt, "panicvalue")
+		}
 		if q.End == "err" {
 			cs := []int{1, 2, 3, 5, 7, 9, 16}
 			if !benign {
